@@ -188,15 +188,19 @@ type caseResult struct {
 	Info string // human readable: files before/after
 }
 
-// idemCode: 1 = trim(trim(x)) == trim(x); F = not a fixpoint, the second pass preserves the
-// value, the package has several files and pass 1 skipped a whole file (known finding);
-// 0 = not a fixpoint for any other reason.
+// idemCode: 1 = trim(trim(x)) == trim(x) (or the second pass refuses and leaves the files alone);
+// F = not a fixpoint, the second pass preserves the value, the package has several files and
+// pass 1 skipped a whole file (known finding F10, mechanism a); B = not a fixpoint, second pass
+// preserves the value, other mechanism; 0 = not a fixpoint and the second pass changes the value
+// or fails.
 func idemCode(res *trimResult) string {
 	switch {
 	case res.Idem:
 		return "1"
 	case res.FileSkip && len(res.In) > 1 && res.TrimErr2 == "" && res.After2 == res.Before:
 		return "F"
+	case res.TrimErr2 == "" && res.After2 == res.Before:
+		return "B"
 	}
 	return "0"
 }
@@ -316,15 +320,27 @@ func runGen(r *common.Rng, a map[string]string, out *common.Out) {
 	}
 }
 
-func runReplay(a map[string]string) {
-	data, err := os.ReadFile(a["--file"])
+// runDir: every *.txt archive ("-- name --" separated files) of a directory, in name order
+// (the minimized corpus and replays)
+func runDir(a map[string]string, out *common.Out) {
+	ents, err := os.ReadDir(a["--dir"])
 	if err != nil {
 		panic(err)
 	}
-	cr := runPackage(splitArchive(string(data)))
-	fmt.Println(cr.Case)
-	fmt.Println(cr.Impl)
-	fmt.Println(cr.Info)
+	src, _ := os.Create(a["--out"] + "/src.txt")
+	defer src.Close()
+	i := 0
+	for _, e := range ents {
+		if !strings.HasSuffix(e.Name(), ".txt") {
+			continue
+		}
+		data, err := os.ReadFile(a["--dir"] + "/" + e.Name())
+		if err != nil {
+			panic(err)
+		}
+		cr := runPackage(splitArchive(string(data)))
+		fmt.Fprintf(src, "### %d %s\n%s\n", i, e.Name(), cr.Info)
+		out.Emit(cr.Case, cr.Impl)
+		i++
+	}
 }
-
-func runCorpus(a map[string]string) {}
